@@ -601,7 +601,7 @@ func (g *cGen) block(n int) *cStmt {
 
 func (g *cGen) newName(ty Kind) string {
 	// shadow a name of an outer scope sometimes
-	if g.depth > 1 && g.r.Chance(1, 5) {
+	if g.depth > 1 && g.r.Chance(1, 3) {
 		vs := g.vars(ty, true)
 		cur := map[string]bool{}
 		for _, v := range g.scopes[len(g.scopes)-1] {
@@ -867,6 +867,59 @@ func (g *cGen) function(f *cFunc, budget int) {
 	g.selfOK = false
 }
 
+// filler emits statements on the int variable x whose compiled size is exactly `bytes`
+// (x++ : 3 bytes, x = x + 1 : 4 bytes, x += 300 : 6 bytes for slots < 7).
+func filler(r *prng.R, x string, bytes int) []*cStmt {
+	var ss []*cStmt
+	xv := func() *cExpr { return &cExpr{k: "V", x: x, ty: KInt} }
+	for bytes > 0 {
+		switch {
+		case bytes == 3 || bytes == 6 && r.Bool() || bytes == 7 || bytes == 9 || (bytes > 11 && r.Chance(1, 4)):
+			ss = append(ss, &cStmt{k: "++", x: x})
+			bytes -= 3
+		case bytes == 6 || (bytes > 11 && r.Chance(1, 5)):
+			ss = append(ss, &cStmt{k: "op=", x: x, op: "add", e: lit(uint64(r.Range(200, 30000)))})
+			bytes -= 6
+		case bytes >= 4 && bytes != 5:
+			ss = append(ss, &cStmt{k: "=", x: x, e: mkBin("add", xv(), lit(uint64(r.Range(1, 9))), KInt)})
+			bytes -= 4
+		default: // 1, 2, 5: not representable, round up
+			ss = append(ss, &cStmt{k: "++", x: x})
+			bytes -= 3
+		}
+	}
+	return ss
+}
+
+// ladder: bodies of if / else / for whose size sweeps the boundary between short and long jumps (codegen.go
+// writeJumps shortens a jump iff its long-layout offset fits a signed byte).
+func (g *cGen) ladder(f *cFunc) {
+	r := g.r
+	g.f("prog:ladder")
+	x := "x"
+	tgt := func() int { return 128 - 5 + r.Range(-8, 8) }
+	var ss []*cStmt
+	a := &cExpr{k: "V", x: f.params[0], ty: KInt}
+	ss = append(ss, &cStmt{k: ":=", x: x, e: a})
+	n := r.Range(1, 3)
+	for i := 0; i < n; i++ {
+		switch r.Intn(3) {
+		case 0: // if without else: the conditional jump spans the body
+			ss = append(ss, &cStmt{k: "if", e: mkBin("gt", a, lit(uint64(r.Intn(5))), KBool), kids: []*cStmt{seq(filler(r, x, tgt()))}, elseK: "none"})
+		case 1: // if / else: the cond jump spans body + JMPL, the JMPL spans the else body
+			ss = append(ss, &cStmt{k: "if", e: mkBin("lt", a, lit(uint64(r.Intn(5))), KBool),
+				kids: []*cStmt{seq(filler(r, x, tgt()-5)), seq(filler(r, x, tgt()))}, elseK: "else"})
+		default: // loop: the backward jump spans cond + body + post
+			i := fmt.Sprintf("i%d", len(ss))
+			body := filler(r, x, 128-r.Range(8, 22))
+			ss = append(ss, &cStmt{k: "for", e: mkBin("lt", &cExpr{k: "V", x: i, ty: KInt}, lit(2), KBool),
+				kids: []*cStmt{{k: ":=", x: i, e: lit(0)}, {k: "++", x: i}, seq(body)}})
+		}
+	}
+	ss = append(ss, &cStmt{k: "ret", e: &cExpr{k: "V", x: x, ty: KInt}})
+	f.body = seq(ss)
+}
+
 func genCoreProgram(r *prng.R, k int, ntuples int) *Prog {
 	g := &cGen{r: r, feat: map[string]int{}, calls: map[string]map[string]bool{}}
 	cp := &CoreProg{}
@@ -909,7 +962,14 @@ func genCoreProgram(r *prng.R, k int, ntuples int) *Prog {
 			f.params = append(f.params, fmt.Sprintf("a%d", j))
 			f.ptypes = append(f.ptypes, kinds[r.Intn(len(kinds))])
 		}
-		g.function(f, r.Range(3, 9))
+		if r.Chance(1, 4) {
+			f.ret = KInt
+			f.params = []string{"a0"}
+			f.ptypes = []Kind{KInt}
+			g.ladder(f)
+		} else {
+			g.function(f, r.Range(3, 9))
+		}
 		cp.funcs = append(cp.funcs, f)
 		entries = append(entries, f)
 	}
